@@ -41,8 +41,12 @@ def independent(names):
 def malform(rng, g):
     g = copy.deepcopy(g)
     n = len(g["players"])
-    kind = rng.choice(["missing", "succ-range", "final-range", "neg-reward", "short-rewards", "missing-last"])
-    if kind == "missing":
+    kind = rng.choice(["missing", "succ-range", "final-range", "neg-reward", "short-rewards", "missing-last", "none-row"])
+    if kind == "none-row":
+        # a state whose transitions are not a sized collection (defect D6, repaired): judged by the solo-run
+        # predicates only, the typed Coq model cannot represent it
+        g["transition_list"][rng.randrange(n)] = rng.choice([None, 0])
+    elif kind == "missing":
         g["transition_list"][rng.randrange(n)] = []
     elif kind == "missing-last":
         g["transition_list"][n - 1] = []
@@ -163,7 +167,10 @@ def empty_results(e):
 def expected_entries(g, base):
     """what solving g alone says the two entries must be (None where the unpruned solve is needed but absent)"""
     n_states = len(g["players"])
-    n_tr = sum(len(r) for r in g["transition_list"])
+    try:
+        n_tr = sum(len(r) for r in g["transition_list"])
+    except TypeError:
+        n_tr = 0     # repaired D6: a non-sized row makes the count fall back to 0
 
     def solved(b):
         r = dec(b["ok"])
